@@ -119,7 +119,32 @@ def _gen_ops(rng, keys, n, tag):
     return ops
 
 
+def _gen_pair(rng):
+    """Two shared caches used together: every operation names the cache it is applied to; 'x*' operations
+    take the other cache as their argument (a == b, a.update(b), a |= b)."""
+    cls = [rng.choice(['LRI', 'LRU']) for _ in range(2)]
+    max_size = [rng.choice([1, 2, 3]) for _ in range(2)]
+    keys = [1, 2, 3, 4][:rng.randint(2, 4)]
+    threads = []
+    for t in range(rng.choice([2, 2, 3])):
+        ops = []
+        for i in range(rng.randint(1, 3)):
+            which = rng.randrange(2)
+            r = rng.random()
+            if r < 0.5:
+                ops.append([rng.choice(['xupdate', 'xupdate', 'xior', 'xeq', 'xne']), which])
+            else:
+                ops.append(['on', which, _gen_ops(rng, keys, 1, 't%d.%d' % (t, i))[0]])
+        threads.append(ops)
+    preload = [[[keys[i % len(keys)], 'p%d.%d' % (w, i)] for i in range(rng.randint(0, max_size[w]))] for w in range(2)]
+    nops = sum(len(t) for t in threads)
+    return {'mode': 'pair', 'cls': cls, 'max_size': max_size, 'on_miss': 'none', 'preload': preload, 'threads': threads,
+            'sched': _gen_sched(rng, nops)}
+
+
 def gen_case(rng, tier):
+    if rng.random() < 0.06:
+        return _gen_pair(rng)
     cls = rng.choice(['LRI', 'LRU'])
     max_size = rng.choice([1, 2, 2, 3, 3, 4])
     keys = rng.choice([[1, 2, 3, 4, 5], ['a', 'b', 'c', 'd', 'e']])[:rng.randint(2, 5)]
@@ -295,7 +320,114 @@ def describe_case(case):
 # ------------------------------------------------------------------------------
 # execution
 
+def _run_pair(case):
+    """Two caches, cross-cache operations.  Judged for liveness and safety only (no deadlock, no leaked lock, no
+    exception a sequential run could not raise, capacity, both caches usable afterwards): the sequential
+    specification of models/ is per cache."""
+    out = core.Outcome()
+    log = core.EventLog(keep=False)
+    nthreads = len(case['threads'])
+    policy = threadsim.make_policy(case['sched'], nthreads)
+    sched = threadsim.Scheduler(policy, log, step_cap=case.get('step_cap', 40000))
+    caches = []
+    for w in range(2):
+        ctx = L.Ctx(sched)
+        c = L.make_cache({'cls': case['cls'][w], 'max_size': case['max_size'][w], 'on_miss': 'none'}, ctx, sched)
+        for k, v in case['preload'][w]:
+            c[L.dk(k)] = L.dk(v)
+        caches.append((c, ctx))
+    results = []
+
+    def program(tid, ops):
+        def run():
+            for i, op in enumerate(ops):
+                sched.yield_point(('invoke', tid, i))
+                me, ctx = caches[op[1]]
+                other = caches[1 - op[1]][0]
+                try:
+                    if op[0] == 'on':
+                        real, post = L.exec_op(me, op[2], ctx)
+                        if post is not None:
+                            real = ('ok', post())
+                    elif op[0] == 'xupdate':
+                        me.update(other)
+                        real = ('ok', None)
+                    elif op[0] == 'xior':
+                        me |= other
+                        real = ('ok', None)
+                    elif op[0] == 'xeq':
+                        real = ('ok', bool(me == other))
+                    elif op[0] == 'xne':
+                        real = ('ok', bool(me != other))
+                    else:
+                        raise AssertionError(op)
+                except threadsim.SimAbort:
+                    raise
+                except Exception as e:
+                    real = ('exc', type(e).__name__)
+                sched.yield_point(('return', tid, i))
+                results.append((tid, i, op, real))
+                log.add('ret', tid, i, repr(real))
+        return run
+
+    for tid, ops in enumerate(case['threads']):
+        sched.spawn(program(tid, ops))
+    reason = sched.run()
+    out.steps = sched.step
+    out.sim_time = float(sched.step)
+    out.extra['switches'] = [[0, sched.first]] + [[s, to] for s, _f, to, _w in sched.switches]
+    if sched.contended:
+        out.probe('lock_contended', sched.contended)
+        out.probe('pair_lock_contended')
+    if any(w[0] in ('op', 'lock') for s, f, to, w in sched.switches):
+        out.nontrivial.append(core.h64(['pair', case['cls'], case['max_size'], case['threads'],
+                                        [(f, to) for s, f, to, w in sched.switches]]))
+    if reason == 'deadlock':
+        out.fail('deadlock', sched.step, 'two caches used together, no runnable thread: %s; programs %r'
+                 % (_blocked(sched), case['threads']), mode='pair')
+    elif reason == 'no-progress':
+        out.fail('no-progress', sched.step, 'more than %d scheduler steps' % sched.step_cap, mode='pair')
+    if out.violation is None and any(l.owner is not None for l in sched.locks):
+        out.fail('lock-leaked', sched.step, 'all threads finished but a cache lock is still held', mode='pair')
+    if out.violation is None:
+        for tid, i, op, real in results:
+            if real[0] != 'exc':
+                continue
+            name = op[2][0] if op[0] == 'on' else op[0]
+            if op[0] != 'on' and real[1] in ('RuntimeError', 'KeyError'):
+                # the other cache is read through its lock-free inherited dict API while it changes: the
+                # root cause recorded as C03-F1, seen through update()/|=/== instead of len()/in/list()
+                out.known.append('C03-F1')
+                out.probe('lockfree_read_saw_transient_state')
+                continue
+            if real[1] not in M.POSSIBLE_EXC.get(L.model_op(op[2])[0] if op[0] == 'on' else '', ()):
+                out.fail('impossible-exception', i, 'thread %d op %r raised %s, which no sequential execution can raise'
+                         % (tid, op, real[1]), exc=real[1], mode='pair')
+                break
+    if out.violation is None:
+        for w in range(2):
+            ms = case['max_size'][w]
+            try:
+                with threadsim.OpcodeBudget(400000):
+                    pr = L.probe(caches[w][0], ms)
+            except threadsim.OpcodeBudget.Exceeded:
+                out.fail('cache-unusable', 0, 'probing cache %d after the threads finished did not terminate' % w, mode='pair')
+                break
+            if pr['len'] > ms or len(pr['items']) > ms or pr['over_capacity']:
+                out.fail('capacity-exceeded', 0, 'cache %d holds %d items > max_size %d' % (w, max(pr['len'], len(pr['items'])), ms),
+                         mode='pair')
+                break
+            if pr['error'] or pr['left'] or pr['len'] != len(pr['items']):
+                out.fail('cache-unusable', 0, 'cache %d after all threads finished: probe error=%r, never evicted=%r, len=%d, items=%r'
+                         % (w, pr['error'], pr['left'], pr['len'], pr['items']), mode='pair')
+                break
+    out.digest = log.digest()
+    return out
+
+
 def run_case(case):
+    if case.get('mode') == 'pair':
+        return _run_pair(case)
     out = core.Outcome()
     log = core.EventLog(keep=False)
     nthreads = len(case['threads'])
